@@ -102,6 +102,7 @@ def binary_atoms() -> list:
         Rx("[\\x7f\\x80\\xff]", True),   # a bytes regex that can produce bytes >= 0x80
         Seq((NT("<nib>"), NT("<nib>"))),
         Lit("a"),
+        Rx(".", True),   # '.' does not match 0x0a (no DOTALL): the alphabet holds a newline byte
     ]
 
 
